@@ -1073,3 +1073,23 @@ Proof.
   unfold tcp_recv_slice. intros H. apply obind_ok_inv in H. destruct H as (u & _ & H).
   destruct (rb_dequeue_slice (s_rx_buffer s) n) as (rx, bytes). inversion H; subst. stf_solve.
 Qed.
+
+(* the sequence number of a data-state segment: SND.NXT as kept by the socket, or SND.UNA (fast
+   retransmit) *)
+Lemma build_data_seq cx s repr s' repr' zwp tg :
+  tcp_dispatch_build_data cx s repr = Ok (s', Some repr', zwp, tg) ->
+  r_seq_number repr' = r_seq_number repr \/ r_seq_number repr' = s_local_seq_no s.
+Proof.
+  unfold tcp_dispatch_build_data. intros H.
+  apply obind_ok_inv in H. destruct H as (ol & _ & H).
+  apply obind_ok_inv in H. destruct H as (lm & _ & H).
+  apply obind_ok_inv in H. destruct H as (((((s1 & r1) & off) & zw) & tg1) & H1 & H).
+  assert (Hr1 : r_seq_number r1 = r_seq_number repr \/ r_seq_number r1 = s_local_seq_no s).
+  { des1 H1.
+    - inversion H1; subst. right. reflexivity.
+    - repeat (apply obind_ok_inv in H1; destruct H1 as (? & _ & H1)). inversion H1; subst. left. reflexivity. }
+  cbv beta iota zeta in H. inversion H; subst; clear H.
+  destruct (_ =? _); [|exact Hr1].
+  destruct (s_state _); try exact Hr1; try (cbn [repr_set_control r_seq_number]; exact Hr1).
+  all: destruct (r_payload r1); cbn [repr_set_control r_seq_number]; exact Hr1.
+Qed.
